@@ -497,6 +497,27 @@ def cli_start(ctx: Ctx):
             dict(task='ranking', size=512, miss=',{}', bound=30000),
             dict(task='identify_rare_values', size=2048, miss=',{}', bound=30000), dict(task='identify_rare_values', size=1024, miss=',{}', bound=30000),
             dict(task='identify_rare_values', size=512, miss=',{}', bound=30000)]
+    # batch-dependent constructed features (--explode_multivalue_features): token q occurs in the first half only, z in the last quarter
+    # only, r in one row, so MULTIEX-mv-<token> exists in some batches and not in others; its annotated coverage is the mean of the
+    # per-batch percentages of the batches that HAVE the column (estimate_importances_minibatches appends per existing column)
+    names_mv = ['f0', 'f1', 'f2', 'f3', 'mv', 'label']
+    rows_mv = []
+    for i, r in enumerate(rows):
+        toks = [t for t, pr in (('p', 0.5), ('s', 0.2)) if ctx.rng.random() < pr]
+        if i < n // 2 and ctx.rng.random() < 0.3:
+            toks.append('q')
+        if i >= 3 * n // 4 and ctx.rng.random() < 0.25:
+            toks.append('z')
+        ctx.rng.shuffle(toks)
+        rows_mv.append(r[:4] + ['-'.join(toks), r[4]])
+    rows_mv[ctx.rng.randrange(n // 4, n // 2)][4] = 'r'
+    os.makedirs(os.path.join(tmp, 'data3'))
+    with open(os.path.join(tmp, 'data3', 'data.csv'), 'w', encoding='latin1') as fh:
+        fh.write(','.join(names_mv) + '\n')
+        for r in rows_mv:
+            fh.write(','.join(r) + '\n')
+    jobs += [dict(task='ranking', size=512, miss=',{}', bound=30000, data='data3', rows=rows_mv, names=names_mv, explode='mv'),
+             dict(task='ranking', size=1024, miss=',{}', bound=30000, data='data3', rows=rows_mv, names=names_mv, explode='mv')]
     if ctx.thorough():
         extra = rows + cli_rows(ctx.rng, 2048)[:1100]          # a final partial batch of 1100 > 1024 rows is consumed as well
         os.makedirs(os.path.join(tmp, 'data2'))
@@ -515,6 +536,7 @@ def cli_start(ctx: Ctx):
     for k, j in enumerate(jobs):
         j.setdefault('data', 'data')
         j.setdefault('rows', rows)
+        j.setdefault('names', names)
         j.setdefault('comp', [j['size']] * (len(j['rows']) // j['size']))
         j['thr'] = 3
         cwd = os.path.join(tmp, f'run{k}')
@@ -525,6 +547,8 @@ def cli_start(ctx: Ctx):
                '--minibatch_size', str(j['size']), '--subsampling', '1', '--heuristic', 'MI-numba-randomized', '--output_folder', 'out',
                '--disable_tqdm', 'True', '--num_threads', '2', '--rare_value_count_upper_bound', str(j['thr']),
                '--missing_value_symbols=' + j['miss'], '--max_unique_hist_constraint', str(j['bound'])]
+        if j.get('explode'):
+            cmd += ['--explode_multivalue_features', j['explode']]
         j['proc'] = subprocess.Popen(cmd, cwd=cwd, env=env, stdout=j['log'], stderr=subprocess.STDOUT)
     return {'tmp': tmp, 'names': names, 'jobs': jobs}
 
@@ -573,19 +597,72 @@ def cli_collect(ctx: Ctx, st):
             results.append((j, desc, obs))
         # model / spec for every run
         req = []
+        derived = []                                            # (result index, feature name, first request index)
         for j, desc, obs in results:
-            case = {'names': names, 'rows': j['rows'], 'miss': j['miss'], 'thr': j['thr'], 'bound': j['bound']}
+            case = {'names': j['names'], 'rows': j['rows'], 'miss': j['miss'], 'thr': j['thr'], 'bound': j['bound']}
             tab = digest_table(j['rows'], 19)
             req.append(request('run', case, j['comp'], 19, 2 ** 18, tab))
             req.append(request('spec', case, j['comp'], 19, 2 ** 18, tab))
+        for k, (j, desc, obs) in enumerate(results):
+            if not j.get('explode'):
+                continue
+            # the one-hot columns of every batch, derived independently of compute_expanded_multivalue_features (whose model is C11's
+            # explodeMulti): a column exists in a batch iff its token occurs there; the C13 model is then asked about exactly the
+            # batches that have the column
+            miss = set(j['miss'].split(','))
+            col = j['names'].index(j['explode'])
+            per = {}
+            at = 0
+            for size in j['comp']:
+                sets = [set(r[col].replace(',', '-').split('-')) for r in j['rows'][at:at + size]]
+                at += size
+                for tok in sorted(set().union(*sets) - miss):
+                    per.setdefault(f'MULTIEX-{j["explode"]}-{tok}', []).append(['1' if tok in s_ else '' for s_ in sets])
+            for name, cols in sorted(per.items()):
+                drows = [[v] for c_ in cols for v in c_]
+                case = {'names': [name], 'rows': drows, 'miss': j['miss'], 'thr': j['thr'], 'bound': j['bound']}
+                tab = digest_table(drows, 19)
+                derived.append((k, name, len(req), len(cols)))
+                req.append(request('run', case, [len(c_) for c_ in cols], 19, 2 ** 18, tab))
+                req.append(request('spec', case, [len(c_) for c_ in cols], 19, 2 ** 18, tab))
         rep = run_driver(req)
         summary = []
+        for k, name, at, nb in derived:
+            j, desc, obs = results[k]
+            (mcols, _, _), (scols, _) = rep[at], rep[at + 1]
+            covs, mannot, (flag, mcard), mhist, _ = mcols[0]
+            ecovs, mean, eannot, ssize, exact, distinct, ehist = scols[0]
+            ctx.evaluations += 1
+            ctx.count('cli:derived-feature')
+            ctx.count('cli:derived-in-all-batches' if nb == len(j['comp']) else 'cli:derived-in-some-batches')
+            info = {k2: j[k2] for k2 in ('task', 'size', 'miss', 'bound', 'thr', 'explode')} | {'n_rows': len(j['rows']), 'feature': name, 'batches_with_column': nb}
+            got = obs['annot'].get(name)
+            if got is None:
+                ctx.oracle_fail('cli-annotation', f'{desc} --explode_multivalue_features {j["explode"]}: constructed feature {name!r} is missing from pairwise_ranks.tsv', {'cli': info})
+                continue
+            if len(got) != 1:
+                ctx.oracle_fail('cli-annotation', f'{desc}: feature {name!r} carries different annotations {got}', {'cli': info})
+                continue
+            card, cov = got[0]
+            if card != mcard:
+                ctx.corr_fail('cli-cardinality', f'{desc}: {name!r} annotated cardinality {card}, model {mcard}', {'cli': info})
+            if card != exact:
+                ctx.oracle_fail('cli-cardinality', f'{desc}: {name!r} annotated cardinality {card} but the column holds {exact} distinct non-empty values', {'cli': info})
+            if near_tie(mean):
+                ctx.count('annot-tie-skipped')
+                continue
+            if cov != mannot:
+                ctx.corr_fail('cli-coverage', f'{desc}: {name!r} annotated coverage {cov}, model {mannot} (column present in {nb} of {len(j["comp"])} batches)', {'cli': info})
+            if cov != eannot:
+                ctx.oracle_fail('cli-annotation', f'{desc} --explode_multivalue_features {j["explode"]}: {name!r} annotated coverage {cov} but int(round(mean,1)) of the exact '
+                                f'per-batch percentages of the {nb} batches (of {len(j["comp"])}) in which the column exists ({[float(x) for x in ecovs]}) is {eannot}', {'cli': info})
         for k, (j, desc, obs) in enumerate(results):
+            names = j['names']
             (mcols, mrare, _), (scols, srare) = rep[2 * k], rep[2 * k + 1]
             ctx.evaluations += 1
             ctx.traces += 1
             ctx.count('cli:' + j['task'])
-            info = {k2: j[k2] for k2 in ('task', 'size', 'miss', 'bound', 'thr')} | {'n_rows': len(j['rows'])}
+            info = {k2: j[k2] for k2 in ('task', 'size', 'miss', 'bound', 'thr')} | {'n_rows': len(j['rows'])} | ({'explode': j['explode']} if j.get('explode') else {})
             if j['task'] == 'ranking':
                 for c_i, c in enumerate(names):
                     covs, mannot, (flag, mcard), mhist, _ = mcols[c_i]
@@ -633,6 +710,9 @@ def cli_collect(ctx: Ctx, st):
             j0, d0, o0 = g[0]
             for j1, d1, o1 in g[1:]:
                 if task == 'ranking':
+                    if j0.get('explode'):                        # constructed columns are per-batch objects: their rows depend on the split
+                        o0 = {kk: {c: v for c, v in vv.items() if c in j0['names']} for kk, vv in o0.items()}
+                        o1 = {kk: {c: v for c, v in vv.items() if c in j1['names']} for kk, vv in o1.items()}
                     c0 = {k: sorted({x[0] for x in v}) for k, v in sorted(o0['annot'].items())}
                     c1 = {k: sorted({x[0] for x in v}) for k, v in sorted(o1['annot'].items())}
                     if c0 != c1:
